@@ -295,6 +295,22 @@ func c03Check(c *Case) []Violation {
 	}
 	types, weights, capsKnown := c03Effective(req, resp)
 	var vs []Violation
+	// the criteria values shown with each result entry are the ones the alternative was evaluated on: when the last bias
+	// is a fatigue, they are digit for digit the values that bias reports to have handed on
+	if n := len(resp.Biases); n > 0 && asS(resp.Biases[n-1]["name"]) == "fatigue" {
+		handed := map[string]map[string]interface{}{}
+		for _, a := range asL(asM(resp.Biases[n-1]["props"])["consideredAlternatives"]) {
+			handed[asS(asM(a)["id"])] = asM(asM(a)["criteria"])
+		}
+		for _, e := range resp.Result {
+			for k, v := range handed[e.Alternative.ID] {
+				if rv, has := e.Alternative.Criteria[k]; !has || rv != asF(v) {
+					vs = append(vs, viol(c, "C03/"+method+"/shown-values-not-evaluated-values", "result entry %s shows %s=%v, the last bias handed on %v", e.Alternative.ID, k, e.Alternative.Criteria[k], v))
+					break
+				}
+			}
+		}
+	}
 	for _, e := range resp.Result {
 		if _, isNum := e.Evaluation["value"].(float64); !isNum {
 			vs = append(vs, viol(c, "C03/"+method+"/value-not-reported", "alternative %s: the evaluation %v carries no numeric value", e.Alternative.ID, e.Evaluation))
@@ -383,8 +399,46 @@ func c03Neighbours(s *Shard) {
 	}
 }
 
+// c03NearWeights: OWA / weighted-sum weights that differ by less than any tolerance used elsewhere in the library, the
+// larger one on the lexicographically smaller id and the other way round; values that differ at those ranks.
+func c03NearWeights(s *Shard) {
+	for _, method := range []string{"owa", "weightedSum"} {
+		for wi, ws := range [][]float64{{0.333334, 0.333333, 0.333333}, {0.333333, 0.333333, 0.333334}, {0.333333, 0.333334, 0.333333}, {0.5000004, 0.5, 0.4999996}} {
+			if !s.Take() {
+				continue
+			}
+			var ka L
+			var chose []string
+			k := 0
+			Product([]int{3, 3, 3}, func(idx []int) {
+				id := fmt.Sprintf("v%02d", k)
+				k++
+				ka = append(ka, alt(id, map[string]float64{"c1": float64(idx[0]) * 10, "c2": float64(idx[1])*10 + 1, "c3": float64(idx[2])*10 + 2}))
+				chose = append(chose, id)
+			})
+			req := M{"preferenceFunction": method, "knownAlternatives": ka, "choseToMake": strs(chose), "criteria": L{crit("c1", "gain"), crit("c2", "gain"), crit("c3", "gain")},
+				"methodParameters": M{"weights": M{"c1": ws[0], "c2": ws[1], "c3": ws[2]}}}
+			for _, prefix := range []string{"none", "fatigue"} {
+				r := M{}
+				for kk, v := range req {
+					r[kk] = v
+				}
+				if prefix == "fatigue" {
+					r["biases"] = L{bias("fatigue", M{"function": "const", "params": M{"value": 0.25}, "randomSeed": 2})}
+				}
+				c := &Case{Prop: "C03", Kind: "request", Req: r}
+				s.Evals++
+				s.Begin(c)
+				s.Report(c03Check(c))
+				s.Outcome(true, method, "near-weights", wi, prefix)
+			}
+		}
+	}
+}
+
 func c03Large(s *Shard) {
 	c03Neighbours(s)
+	c03NearWeights(s)
 	big := []float64{1000, 1000.004, 2000, 1e11, -1e11, 3}
 	for _, method := range utilMethods {
 		for n := 2; n <= 3; n++ {
